@@ -21,6 +21,14 @@ open Multi
 
 def fmtExts (es : List Ext) : String := " ".intercalate (es.map fun e => s!"{e.first}:{e.last}")
 
+/-- a returned view: extents, element count and — up to 100 elements — the element offsets (large cases stay one short line) -/
+def retLine (v : View) : String :=
+  let k := (v.exts.map fun e => e.size.toNat).foldl (· * ·) 1
+  if k > 100 then s!"ret {fmtExts v.exts} | {k} : _"
+  else
+    let idxs := boxIndices v.exts
+    s!"ret {fmtExts v.exts} | {idxs.length} : {ints (idxs.map v.addr)}"
+
 def potrfLines (A : View) (upper : Bool) (info : Int) : List String :=
   let uplo : Filling := if upper then .upper else .lower
   let c := potrfCall uplo A
@@ -28,11 +36,10 @@ def potrfLines (A : View) (upper : Bool) (info : Int) : List String :=
   let r := potrfOrder n info
   -- the view the adaptor returns: "the leading block up to the first non-positive minor"
   let lead := potrfResult A info
-  let idxs := boxIndices lead.exts
   (if potrfAsserts A then [] else ["ASSERT potrf"]) ++
   [ s!"potrf {c.uplo} {c.n} {c.a} {c.lda}",
     s!"order {r}",
-    s!"ret {fmtExts lead.exts} | {idxs.length} : {ints (idxs.map lead.addr)}",
+    retLine lead,
     "num ok | tri ok | frame ok" ]
 
 def geqrfLines (aa tau : View) : List String :=
@@ -59,9 +66,7 @@ def syevLines (a w work : View) (upper : Bool) (api : Nat) : List String :=
     | some c => [s!"syev {c.jobz} {c.uplo} {c.n} {p (api ≥ 3) c.a} {c.lda} {p (api == 2 || api == 4) c.w} {p (api != 0) c.work} {c.lwork}"]
     | none => ["ASSERT syev layout"]
   let ret := if api ≤ 1 then
-      let r := syevResult a 0
-      let idxs := boxIndices r.exts
-      s!"ret {fmtExts r.exts} | {idxs.length} : {ints (idxs.map r.addr)}"
+      retLine (syevResult a 0)
     else "ret none"
   (if syevAsserts aEff wEff workEff then [] else ["ASSERT syev"]) ++ callLine ++ [ret, "num ok | order ok | frame ok"]
 
